@@ -82,6 +82,14 @@ def run(prop, tier, seed, replay=None):
         raise core.ToolError("MC_Api violates " + r.violated)
     core.require_coverage(r, ["Build", "Clone", "Serialize", "Deserialize", "Begin", "End"], "Api")
     r2, consts2 = p_flow.mc_sample("C17", tier, wd)     # PureCalls: the sampler is never written by a call
+    # hidden state keyed by identity vs. by address (ApiSlots): the sound design passes, the unsound one must be refuted
+    slots = {}
+    for keyed in ("origin", "address"):
+        rs = core.tlc("MC_ApiSlots", core.cfg_text(spec="SSpec", constants=dict(Sids={1, 2}, Origins={1, 2}, Slots={1, 2}, KEYED='"%s"' % keyed),
+                                                   invariants=["QuerySound"]), "mc_slots_" + keyed, wd, workers=2, timeout=300, coverage=False)
+        slots[keyed] = {"states": rs.distinct, "violated": rs.violated}
+    if slots["origin"]["violated"] or not slots["address"]["violated"]:
+        raise core.ToolError("ApiSlots: expected the origin-keyed memo to be sound and the address-keyed one to be refuted: %s" % slots)
     # 2. histories on the real code
     path, runs, gstates, nlines = p_sample.gen_routing(tier, wd, seed)
     # plus Gen_Table graphs (disconnected ones included: G(3,3), G(4,3), G(4,4) slices), interleaved
@@ -157,7 +165,8 @@ def run(prop, tier, seed, replay=None):
                 "evaluations = sample calls; non-trivial = origins",
         "exhaustive": False,
         "tlc_models": [{"module": "MC_Api", "constants": {k: sorted(v) for k, v in consts.items()}, "states": r.distinct, "action_counts": r.coverage},
-                       {"module": "MC_Sample (PureCalls)", "states": r2.distinct}],
+                       {"module": "MC_Sample (PureCalls)", "states": r2.distinct},
+                       {"module": "MC_ApiSlots (memo keyed by origin: sound; keyed by address: refuted, as it must be)", "result": slots}],
         "trace_validation": {"module": "Trace_Api", "events": s["events"], "rejected": len(rej)},
         "harness_counters": s["counters"],
         "mutable_state_inventory": inventory(),
